@@ -788,6 +788,9 @@ func (m *machine) genBlock(t *rapid.T, open []*contract) hOp {
 			op.N = 1
 		}
 	}
+	if len(open) > 0 && (switchF11 || !m.importNeedsCompatibleParams()) && chance(t, "block/restart", 10) {
+		op.Restart = true
+	}
 	// block time: either the usual steps, or aimed at the end of an asset's limit window
 	var tl []*assetM
 	for _, d := range m.order {
